@@ -7,7 +7,7 @@
 (*     <<"ROWBAD", property, clause, chunk, row index>>.                    *)
 (* One initial state per chunk, so that the workers judge in parallel.      *)
 (***************************************************************************)
-EXTENDS ShortMsg, MidiInts, TLC, Json, IOUtils, FiniteSets
+EXTENDS ShortMsg, MidiInts, PnScanner, Cc14Scanner, TLC, Json, IOUtils, FiniteSets
 
 CONSTANTS K,      \* number of chunk files
           Table   \* which table
@@ -164,7 +164,91 @@ IntsViol(r) ==
       [] r[1] = 9 ->                 \* consts: [9,cfg,T,MIN,MAX,default]
            (IF r[4] = 0 /\ r[5] = MaxOf(T) /\ r[6] = 0 THEN {} ELSE Both("min-max-default"))
 
+(****************************** table `factory` ****************************)
+(* r = [ctor, impl, a1, a2, a3, a4, pan, al, result...]; shorthand ctor = 30 + named ctor *)
+NamedBytes(c, a) ==
+    CASE c = 0 -> <<144 + a[1], a[2], a[3]>>
+      [] c = 1 -> <<128 + a[1], a[2], a[3]>>
+      [] c = 2 -> <<176 + a[1], a[2], a[3]>>
+      [] c = 3 -> <<192 + a[1], a[2], 0>>
+      [] c = 4 -> <<160 + a[1], a[2], a[3]>>
+      [] c = 5 -> <<208 + a[1], a[2], 0>>
+      [] c = 6 -> <<224 + a[1], Lo(a[2]), Hi(a[2])>>
+      [] c = 7 -> <<240, 0, 0>>
+      [] c = 8 -> <<241, QfEncode(<<a[1], a[2], a[3]>>), 0>>
+      [] c = 9 -> <<242, Lo(a[1]), Hi(a[1])>>
+      [] c = 10 -> <<243, a[1], 0>>
+      [] c = 11 -> <<246, 0, 0>> [] c = 12 -> <<247, 0, 0>> [] c = 13 -> <<248, 0, 0>>
+      [] c = 14 -> <<250, 0, 0>> [] c = 15 -> <<251, 0, 0>> [] c = 16 -> <<252, 0, 0>>
+      [] c = 17 -> <<254, 0, 0>> [] c = 18 -> <<255, 0, 0>>
+ArgMax(c) ==       \* documented ranges of the primitive arguments of the shorthand helpers
+    CASE c \in {0, 1, 2, 4} -> <<15, 127, 127>>
+      [] c \in {3, 5} -> <<15, 127>>
+      [] c = 6 -> <<15, 16383>>
+      [] c = 9 -> <<16383>>
+      [] c = 10 -> <<127>>
+      [] OTHER -> <<>>
+ShorthandPanics(c, a) == \E i \in 1..Len(ArgMax(c)) : a[i] > ArgMax(c)[i]
+
+FactoryViol(r) ==
+    LET c == r[1]  imp == r[2]  a == Sub(r, 3, 4)  pan == r[7]
+        isMsg == c <= 22 \/ (c >= 30 /\ c <= 49)
+        wantPan == CASE c <= 18 -> FALSE
+                     [] c = 20 -> FuzzyOf(a[1]) # 0
+                     [] c = 21 -> FuzzyOf(a[1]) # 1
+                     [] c = 22 -> FuzzyOf(a[1]) # 2
+                     [] c >= 30 /\ c <= 48 -> ShorthandPanics(c - 30, a)
+                     [] c = 49 -> a[1] < 128 \/ a[2] > 127 \/ a[3] > 127
+                     [] c \in {50, 53} -> a[1] > 15
+                     [] c \in {51, 54, 55} -> a[1] > 127
+                     [] c = 52 -> a[1] > 16383
+                     [] c = 56 -> a[1] > 15 \/ a[2] > 31 \/ a[3] > 16383
+                     [] c \in {57, 59} -> a[1] > 15 \/ a[2] > 16383 \/ a[3] > 127
+                     [] c \in {58, 60} -> a[1] > 15 \/ a[2] > 16383 \/ a[3] > 16383
+        bytes == CASE c <= 18 -> NamedBytes(c, a)
+                   [] c = 20 -> <<a[1] + a[2], a[3], a[4]>>
+                   [] c = 21 -> <<a[1], a[2], a[3]>>
+                   [] c = 22 -> <<a[1], 0, 0>>
+                   [] c >= 30 /\ c <= 48 -> NamedBytes(c - 30, a)
+                   [] c = 49 -> <<a[1], a[2], a[3]>>
+                   [] OTHER -> <<0, 0, 0>>
+        eb == IF imp = 1 THEN Canon(bytes[1], bytes[2], bytes[3]) ELSE bytes
+    IN (IF pan = B2I(wantPan) THEN {}
+        ELSE {<<"C06", IF wantPan THEN "missing-documented-panic" ELSE "unexpected-panic">>}
+             \cup (IF ~wantPan THEN {<<"C18", "panic-on-valid-input">>} ELSE {}))
+       \cup (IF pan = 0 /\ ~wantPan /\ isMsg
+             THEN LET vec == Sub(r, 9, 26)  exp == Obs(eb[1], eb[2], eb[3]) IN
+                  (IF vec = exp THEN {} ELSE {<<"C06", "ctor" \o ToString(c) \o "-acc" \o ToString(FirstDiff(vec, exp))>>})
+                  \cup (IF r[35] = 0 /\ ~HasPanic(vec) THEN {} ELSE {<<"C18", "factory-accessors">>})
+                  \cup (IF vec[16] <= 127 /\ vec[17] <= 127 THEN {} ELSE {<<"C04", "data-byte-out-of-range">>})
+             ELSE {})
+       \cup (IF pan = 0 /\ ~wantPan /\ c >= 50 /\ c <= 55 /\ r[9] # a[1] THEN {<<"C06", "shorthand-int">>} ELSE {})
+       \cup (IF pan = 0 /\ ~wantPan /\ c = 56 /\ Sub(r, 9, 3) # <<a[1], a[2], a[3]>> THEN {<<"C06", "shorthand-cc14">>} ELSE {})
+       \cup (IF pan = 0 /\ ~wantPan /\ c \in 57..60
+                /\ Sub(r, 9, 6) # <<a[1], a[2], a[3], B2I(c >= 59), B2I(c \in {58, 60}), 0>>
+             THEN {<<"C06", "shorthand-pn">>} ELSE {})
+       \cup (IF r[8] = 0 THEN {} ELSE {<<"C18", "alloc">>})
+
+(******************************* table `pnmsg` *****************************)
+PnmsgViol(r) ==
+    LET c == r[1]
+        msg == <<r[2], r[3], r[4], B2I(c >= 4), B2I(c % 4 = 1), CASE c % 4 = 2 -> 2 [] c % 4 = 3 -> 1 [] OTHER -> 0>>
+        ord == IF r[5] = 0 THEN "msb" ELSE "lsb"
+    IN IF ~PnValid(msg) THEN {<<"TOOL", "bad-pnmsg-row">>}
+       ELSE IF r[7] # 0 THEN {<<"C09", "constructor-panics">>, <<"C18", "panic-on-valid-input">>}
+       ELSE LET e == PnEncode(msg, ord)
+                flat(i) == IF e[i] = NoMsg THEN <<-1, -1, -1>> ELSE e[i]
+                want == flat(1) \o flat(2) \o flat(3) \o flat(4)
+            IN (IF Sub(r, 9, 6) = msg THEN {} ELSE {<<"C09", "accessors">>})
+               \cup (IF Sub(r, 15, 12) = want THEN {}
+                     ELSE {<<"C09", "encode-slot" \o ToString(((FirstDiff(Sub(r, 15, 12), want) - 1) \div 3) + 1)>>})
+               \cup (IF r[27] = 1 THEN {} ELSE {<<"C09", "array-conversion">>})
+               \cup (IF r[8] = 0 THEN {} ELSE {<<"C18", "alloc">>})
+               \cup (IF \A j \in {16, 17, 19, 20, 22, 23, 25, 26} : r[j] <= 127 THEN {} ELSE {<<"C04", "data-byte-out-of-range">>})
+
 RowViol(r) == CASE Table = "short" -> ShortViol(r)
+                [] Table = "factory" -> FactoryViol(r)
+                [] Table = "pnmsg" -> PnmsgViol(r)
                 [] Table = "ints" -> IntsViol(r)
                 [] Table = "structured" -> StructViol(r)
                 [] Table = "types" -> TypesViol(r)
